@@ -95,6 +95,10 @@ unsafe fn real_clock() -> ClockFn {
 
 unsafe fn fill_simulated(buf: *mut u8, len: usize, tid: u64) {
     let seed = ENTROPY_SEED.load(SeqCst);
+    if len == 0 {
+        // availability probe of the getrandom crate (once per OS process): not a draw
+        return;
+    }
     ENTROPY_CALLS.fetch_add(1, SeqCst);
     ENTROPY_BYTES.fetch_add(len as u64, SeqCst);
     if len == 16 {
